@@ -474,7 +474,7 @@ func ruleC17Single(cx *Ctx) {
 	for _, fn := range cx.P.FuncsOfPkg("") {
 		allInstrs(fn, func(in ssa.Instruction) {
 			if callOnField(in, rb, drain) {
-				cx.R.Check(lc.heldAt(in), rule, funcName(fn), "DrainTo", cx.P.where(in), "the read buffer is drained under the eviction lock: "+lc.explain(in))
+				cx.R.Check(lc.heldAtCtx(in), rule, funcName(fn), "DrainTo", cx.P.where(in), "the read buffer is drained under the eviction lock: "+lc.explain(in))
 			}
 		})
 	}
